@@ -224,6 +224,17 @@ def protocol_level(ctx) -> None:
                 c03.check_honest(ctx, ctx.grng("C02.protocol", klass, k, j), 20_000 + j, directed=klass)
                 if ctx.counters.get("honest_accepted", 0) > before:
                     ctx.count(f"protocol_level_leading_zero_{klass}")
+    # the values of ONE exchange stay with that exchange: after a failed attempt (wrong code, damaged proof) the next attempt on
+    # the same transport object negotiates fresh salt / B and the right code pairs (CoAP keeps the object between attempts)
+    from vf import setup_transports, vloop
+
+    async def retries():
+        for k, sc in enumerate(("wrong-then-right", "bad-proof-then-right")):
+            j2 = 1000 + k
+            if ctx.mine(j2):
+                await setup_transports.coap_case(ctx, 500 + k, sc)
+
+    vloop.run(retries())
 
 
 def replay(ctx, d) -> None:
